@@ -90,6 +90,8 @@ static inline std::vector<Item> pool()
     v.push_back({"... timestamp high word differs", [] { auto p = distinctive(0x44, ST::intermediarySegment, 0xFE); p.setTimestamp(0x778899ABBBCCDDEEull); return p; }, true});
     v.push_back({"... payload one byte longer", [] { auto p = distinctive(0x44, ST::intermediarySegment, 0xFE); Bytes d = pat(6, 2); p.setPayload(A::Payload(A::PayloadType(A::CmpHeader::MessageType::data, 0xFE), d.data(), d.size())); return p; }, true});
     v.push_back({"one-byte payload", [] { A::Packet p; uint8_t b = 0x5A; p.setPayload(A::Payload(A::PayloadType(0x01FEu), &b, 1)); return p; }, true});
+    v.push_back({"payload of type 0x0100 (raw type 0), 5 bytes", [] { A::Packet p; Bytes d = pat(5, 6); p.setPayload(A::Payload(A::PayloadType(0x0100u), d.data(), 5)); return p; }, true});
+    v.push_back({"payload of type 0x0100 (raw type 0), 5 other bytes", [] { A::Packet p; Bytes d = pat(5, 7); p.setPayload(A::Payload(A::PayloadType(0x0100u), d.data(), 5)); return p; }, true});
     v.push_back({"one-byte payload, other byte", [] { A::Packet p; uint8_t b = 0x5B; p.setPayload(A::Payload(A::PayloadType(0x01FEu), &b, 1)); return p; }, true});
     v.push_back({"... first payload byte differs", [] { auto p = distinctive(0x44, ST::intermediarySegment, 0xFE); Bytes d = pat(5, 2); d[0] ^= 0x80; p.setPayload(A::Payload(A::PayloadType(A::CmpHeader::MessageType::data, 0xFE), d.data(), d.size())); return p; }, true});
     v.push_back({"... last payload byte differs", [] { auto p = distinctive(0x44, ST::intermediarySegment, 0xFE); Bytes d = pat(5, 2); d[4] ^= 0x01; p.setPayload(A::Payload(A::PayloadType(A::CmpHeader::MessageType::data, 0xFE), d.data(), d.size())); return p; }, true});
@@ -322,6 +324,13 @@ static inline std::vector<std::pair<std::string, std::function<A::Payload()>>> a
         {"generic 5 bytes, last byte differs", [] { Bytes d = pat(5, 1); d[4] ^= 0x01; return PL(A::PayloadType(0x01FEu), d.data(), 5); }},
         {"one byte", [] { uint8_t b = 7; return PL(A::PayloadType(0x01FEu), &b, 1); }},
         {"one byte, other value", [] { uint8_t b = 8; return PL(A::PayloadType(0x01FEu), &b, 1); }},
+        // types for which isValid() is false although the object holds bytes (raw type 0 / message type 0)
+        {"type 0x0100 (raw type 0), 5 bytes", [] { Bytes d = pat(5, 6); return PL(A::PayloadType(0x0100u), d.data(), 5); }},
+        {"type 0x0100 (raw type 0), 5 other bytes", [] { Bytes d = pat(5, 7); return PL(A::PayloadType(0x0100u), d.data(), 5); }},
+        {"type 0x0001 (message type 0), 5 bytes", [] { Bytes d = pat(5, 6); return PL(A::PayloadType(0x0001u), d.data(), 5); }},
+        {"type 0x0001 (message type 0), 5 other bytes", [] { Bytes d = pat(5, 7); return PL(A::PayloadType(0x0001u), d.data(), 5); }},
+        {"CanPayload 8 whose type was reset to invalid afterwards", [] { A::CanPayload c; Bytes d = pat(8, 2); c.setData(d.data(), 8); PL p(c); p.setType(A::PayloadType(A::PayloadType::invalid)); return p; }},
+        {"CanPayload 8, one byte differs, type reset to invalid", [] { A::CanPayload c; Bytes d = pat(8, 2); d[3] ^= 1; c.setData(d.data(), 8); PL p(c); p.setType(A::PayloadType(A::PayloadType::invalid)); return p; }},
     };
 }
 static inline std::vector<std::pair<std::string, std::function<TECMP::Payload()>>> tecmpPayloads()
@@ -350,7 +359,7 @@ static int runC14(mc::Run& run, const mc::Options& opt)
     run.rule = ofmt("pool of %zu packets (no payload, zero-length payloads of three types, equal-looking pairs, typed, decoder-produced, distinctive headers): every ordered pair "
                     "(source, target) x {copy-construct, move-construct, copy-assign, move-assign}, self copy/move assignment, every sequence of two assignments into every "
                     "target, equality on every ordered pair (reflexive, symmetric, agrees with field-by-field for non-empty payloads, != is the negation); the same for "
-                    "all ordered pairs of 13 Payload and 10 TECMP::Payload objects; observation = all getters + payload presence/type/bytes, under ASan in forked workers; "
+                    "all ordered pairs of 19 Payload and 10 TECMP::Payload objects; observation = all getters + payload presence/type/bytes, under ASan in forked workers; "
                     "distinct = distinct (operation, source, target / verdict) outcomes",
                     P.size());
     const std::vector<std::string> ops = {"copy-construct", "move-construct", "copy-assign", "move-assign"};
